@@ -24,6 +24,7 @@ func checkC07(p *Prog, res *Result, tier string) {
 	res.rule("C07-R4", "skip test before each engine delete; failures reach the skipped-key update; non-CAS errors set the skipped key", 5)
 	res.rule("C07-R5", "compaction revision clamp (C09-R2)", 1)
 	res.rule("C07-R9", "compaction ranges: every prefix contributes (Encode(k,0), Encode(upper(k),0)) of the same k, the border list is sorted after the last append, and it is consumed as (borders[i], borders[i+1]) with i += 2", 4)
+	res.rule("C07-R10", "write paths recognise 'the record is gone' on the error of the step that reported it: no classification test looks at an error value already classified otherwise by an enclosing branch (C09-R9)", 8)
 	res.rule("C07-R8", "the expiry branch of the compaction scan removes an index record only by compare-and-delete (C17-R3)", 1)
 	res.rule("C07-R7", "the compaction scan covers every record of its interval: partition borders contiguous and realigned to index keys (C13-R5)", 2)
 	res.rule("C07-R6", "every adapter's compare-and-delete compares the stored value / version before deleting (C11-R1); the metrics wrapper forwards deletes unchanged and returns their error (C11-R5)", 6)
@@ -509,6 +510,8 @@ func checkC07(p *Prog, res *Result, tier string) {
 			res.add("C07-R6", o.Rule+" "+o.Construct, o.Status, o.Pos, o.Detail)
 		}
 	}
+	// ---- R10: a key stays writable after its records were compacted away (the creator's re-read, C09-R9) ----
+	checkContradictoryClassification(p, res, "C07-R10")
 	// ---- R9: which ranges are walked ----
 	checkCompactionRanges(p, r, res, "C07-R9")
 
